@@ -420,29 +420,7 @@ func runC09(c *eng.Ctx, thorough bool) {
 		}
 	}
 	c.Floor(apply, "clearOldEntries after the batch", len(eng.Calls(apply, `clearOldEntries$`)), 1)
-	if f := c.Fn("raft.(*fsmTxnCommitIndexTracker).lowestActiveIndexAfterCommit"); f != nil {
-		c.Clause("R2", "C09.3")
-		mins := instrsOf(eng.Calls(f, `^min$`))
-		body := eng.CondEdges(f, `^next\(range\(t\.sourceIndexMap\)\)#0$`, true)
-		hdr := eng.EdgeIfs(body)
-		if c.Floor(f, "min() accumulation", len(mins), 1) && len(body) > 0 {
-			for _, g := range []eng.Guard{
-				eng.G(f, `^next\(range\(t\.sourceIndexMap\)\)#1 == transactionStartIndex$`, true),
-				eng.G(f, `^next\(range\(t\.sourceIndexMap\)\)#2 == 1$`, true),
-			} {
-				site := "skip of a start index needs " + g.Desc
-				if len(g.Edges) == 0 {
-					c.Violation(f, site, f.Pos(), "the condition under which an active start index is ignored changed: "+g.Desc+" is no longer tested (a transaction's start index may only be excluded from the shipped bound when it is the committing transaction's own index and no sibling transaction is open at it)", nil)
-					continue
-				}
-				if h := eng.Reach(eng.Query{Fn: f, StartEdges: body, Barriers: mins, Blocked: g.Edges, Target: eng.IsTarget(hdr)}); h != nil {
-					c.Violation(f, site, h.Instr.Pos(), "an active start index can be skipped (not folded into the minimum) without "+g.Desc, h.Witness)
-				} else {
-					c.OK(f, site, mins[0].Pos(), "every loop iteration folds the index into the minimum unless "+g.Desc)
-				}
-			}
-		}
-	}
+	raftTrimBoundSkip(c, "C09.3")
 
 	raftFastPath(c, "C09.4")
 
@@ -635,6 +613,36 @@ func runC09(c *eng.Ctx, thorough bool) {
 		}
 	}
 	runC09Gaps2(c)
+}
+
+// raftTrimBoundSkip: on the leader a transaction's own start index is excluded
+// from the bound it ships only if it is the only active one at that index.
+// Shared by C09 (replicas trim alike) and C08 (a bound that is too high lets a
+// sibling transaction begun at the same index commit with a stale read).
+func raftTrimBoundSkip(c *eng.Ctx, clause string) {
+	if f := c.Fn("raft.(*fsmTxnCommitIndexTracker).lowestActiveIndexAfterCommit"); f != nil {
+		c.Clause("R2", clause)
+		mins := instrsOf(eng.Calls(f, `^min$`))
+		body := eng.CondEdges(f, `^next\(range\(t\.sourceIndexMap\)\)#0$`, true)
+		hdr := eng.EdgeIfs(body)
+		if c.Floor(f, "min() accumulation", len(mins), 1) && len(body) > 0 {
+			for _, g := range []eng.Guard{
+				eng.G(f, `^next\(range\(t\.sourceIndexMap\)\)#1 == transactionStartIndex$`, true),
+				eng.G(f, `^next\(range\(t\.sourceIndexMap\)\)#2 == 1$`, true),
+			} {
+				site := "skip of a start index needs " + g.Desc
+				if len(g.Edges) == 0 {
+					c.Violation(f, site, f.Pos(), "the condition under which an active start index is ignored changed: "+g.Desc+" is no longer tested (a transaction's start index may only be excluded from the shipped bound when it is the committing transaction's own index and no sibling transaction is open at it)", nil)
+					continue
+				}
+				if h := eng.Reach(eng.Query{Fn: f, StartEdges: body, Barriers: mins, Blocked: g.Edges, Target: eng.IsTarget(hdr)}); h != nil {
+					c.Violation(f, site, h.Instr.Pos(), "an active start index can be skipped (not folded into the minimum) without "+g.Desc, h.Witness)
+				} else {
+					c.OK(f, site, mins[0].Pos(), "every loop iteration folds the index into the minimum unless "+g.Desc)
+				}
+			}
+		}
+	}
 }
 
 func uniqStr(xs []string) []string {
